@@ -200,18 +200,80 @@ def rectCovers (B A : Polygon) : Bool :=
     (allEdges A).all (inRectEdge b0.x b0.y b2.x b2.y)
   | _ => false
 
+/-- twice the signed area of the triangle `a b c`: positive when `c` is to the left of the directed line `a → b` -/
+def orient (a b c : Pt) : Int := (b.x - a.x) * (c.y - a.y) - (b.y - a.y) * (c.x - a.x)
+
+/-- all vertices of `EA` are on the closed right side of the directed line `u → v` (or on it), all vertices of `EB`
+    strictly on its left side -/
+def sideOK (u v : Pt) (EA EB : List (Pt × Pt)) : Bool :=
+  EA.all (fun e => decide (orient u v e.1 ≤ 0 ∧ orient u v e.2 ≤ 0)) &&
+  EB.all (fun f => decide (0 < orient u v f.1 ∧ 0 < orient u v f.2))
+
+/-- the operands are separated by the line through one of their edges (in either direction, either operand on the
+    closed side) — e.g. every pair of disjoint convex contours, whether or not their bounding boxes overlap -/
+def sepLine (A B : Polygon) : Bool :=
+  let EA := allEdges A
+  let EB := allEdges B
+  (EA ++ EB).any fun e =>
+    sideOK e.1 e.2 EA EB || sideOK e.2 e.1 EA EB || sideOK e.1 e.2 EB EA || sideOK e.2 e.1 EB EA
+
 def emptyCert : Op → Polygon → Polygon → Bool
-  | .inter, A, B => noEdges A || noEdges B || separated A B
+  | .inter, A, B => noEdges A || noEdges B || separated A B || sepLine A B
   | .sub, A, B => noEdges A || decide (A = B) || rectCovers B A
   | .xor, A, B => decide (A = B) || (noEdges A && noEdges B)
   | .union, A, B => noEdges A && noEdges B
 
 def validateEmpty (A B R : Polygon) (op : Op) : Bool := !(emptyCert op A B) || resultEmpty R
 
-/-- the validator of a sampled call: the law at the sample points that keep the margin, and an empty result whenever
-    the region is certified empty -/
+/-! ### the general disjointness / containment judgement (exact, executable; soundness NOT machine-proved)
+
+`noContact A B`: no edge of `A` meets an edge of `B` (closed segments: touching and collinear overlap count as meeting),
+no vertex of `A` is inside `B` and no vertex of `B` is inside `A`.  Then the regions are disjoint
+(`Props/C05.lean`, `noContact_disjoint_Statement` — a topological fact that is stated, not proved, there; proved only for
+operands separated by a line, `sepLine`).  `containedIn A B`: the boundaries do not meet, every vertex of `A` is inside
+`B` and no vertex of `B` is inside `A`; then `A ⊆ B` (`containedIn_subset_Statement`, likewise unproved).  The validator
+uses them in addition to the proved certificate: an Intersect of `noContact` operands and a Sub of `containedIn`
+operands must return an empty polygon. -/
+
+def sgn (i : Int) : Int := if 0 < i then 1 else if i < 0 then -1 else 0
+
+def inBox (a b c : Pt) : Bool :=
+  decide (min a.x b.x ≤ c.x ∧ c.x ≤ max a.x b.x ∧ min a.y b.y ≤ c.y ∧ c.y ≤ max a.y b.y)
+
+/-- `c` lies on the closed segment `ab` -/
+def onSeg (a b c : Pt) : Bool := orient a b c == 0 && inBox a b c
+
+/-- do the closed segments `ab` and `cd` have a point in common -/
+def segMeet (a b c d : Pt) : Bool :=
+  (sgn (orient a b c) != sgn (orient a b d) && sgn (orient c d a) != sgn (orient c d b)) ||
+  onSeg a b c || onSeg a b d || onSeg c d a || onSeg c d b
+
+def boundariesApart (EA EB : List (Pt × Pt)) : Bool :=
+  EA.all fun e => EB.all fun f => !(segMeet e.1 e.2 f.1 f.2)
+
+def noContact (A B : Polygon) : Bool :=
+  let EA := allEdges A
+  let EB := allEdges B
+  boundariesApart EA EB && EA.all (fun e => !(insideE EB e.1)) && EB.all (fun f => !(insideE EA f.1))
+
+def containedIn (A B : Polygon) : Bool :=
+  let EA := allEdges A
+  let EB := allEdges B
+  !EA.isEmpty && boundariesApart EA EB && EA.all (fun e => insideE EB e.1) && EB.all (fun f => !(insideE EA f.1))
+
+/-- regions judged empty by the general (unproved) judgement -/
+def emptyJudged : Op → Polygon → Polygon → Bool
+  | .inter, A, B => noContact A B
+  | .sub, A, B => containedIn A B
+  | _, _, _ => false
+
+def validateEmptyJudged (A B R : Polygon) (op : Op) : Bool := !(emptyJudged op A B) || resultEmpty R
+
+/-- the validator of a sampled call: the law at the sample points that keep the margin, an empty result whenever the
+    region is certified empty (`emptyCert`, proved), and an empty result whenever the exact disjointness / containment
+    judgement holds (`emptyJudged`) -/
 def validateGeneral (m : Int) (A B R : Polygon) (op : Op) (pts : List Pt) : Bool :=
-  validatePoints m A B R op pts && validateEmpty A B R op
+  validatePoints m A B R op pts && validateEmpty A B R op && validateEmptyJudged A B R op
 
 /-! ## exact numbers: dyadic rationals and IEEE decoding -/
 
